@@ -887,6 +887,8 @@ class Container(_ContainerBase):
         fields = cls.fields()
         field_values: Dict[str, View]
         if cls.is_fixed_byte_length():
+            if scope != cls.type_byte_length():
+                raise Exception(f"scope {scope} is not valid for expected byte length {cls.type_byte_length()}")
             field_values = {fkey: ftyp.deserialize(stream, ftyp.type_byte_length()) for fkey, ftyp in fields.items()}
         else:
             field_values = {}
